@@ -854,6 +854,8 @@ func (filter *TrzszFilter) wrapOutput() {
 			if filter.options.EnableZmodem {
 				if zmodem := detectZmodem(buf); zmodem != nil {
 					_ = writeAll(filter.clientOut, buf)
+					// the session must be usable as soon as it is published: a `ctrl + c` may stop it at once
+					zmodem.logger, zmodem.serverIn, zmodem.clientOut = filter.logger, filter.serverIn, filter.clientOut
 					if filter.zmodem.CompareAndSwap(nil, zmodem) {
 						hideCursor(filter.clientOut)
 						filter.hidingCursor = true
